@@ -28,13 +28,21 @@ func allProbeWords() []tak.Slides {
 	}
 	seen := map[tak.Slides]bool{}
 	var out []tak.Slides
-	for _, row := range tak.VerifSlidesTable() {
-		for _, s := range row {
-			if !seen[s] {
-				seen[s] = true
-				out = append(out, s)
+	// every composition of 1..8, enumerated here (NOT read from the engine's table, which is under test)
+	var rec func(left int, word tak.Slides, shift uint)
+	rec = func(left int, word tak.Slides, shift uint) {
+		for d := 1; d <= left; d++ {
+			w := word | tak.Slides(d)<<shift
+			if !seen[w] {
+				seen[w] = true
+				out = append(out, w)
 			}
+			rec(left-d, w, shift+4)
 		}
+	}
+	rec(8, 0, 0)
+	if len(out) != 255 {
+		panic("probe words: expected 255 compositions")
 	}
 	for _, s := range damagedWords {
 		if !seen[s] {
@@ -214,7 +222,10 @@ func withReserves(p *tak.Position, ws, wc, bs, bc int) *tak.Position {
 func emitC03(c *Ctx, p *tak.Position, probe bool) {
 	tok := encPos(p)
 	out := c.Emit("allmoves " + tok)
-	c.Emit("slegal " + tok)
+	if !probe {
+		// (the accepts probe subsumes slegal: it pushes every listed move through Move as well)
+		c.Emit("slegal " + tok)
+	}
 	g := c.Emit("gencheck " + tok)
 	if !strings.HasSuffix(g, "dup=0 off=0") {
 		c.Count("gencheck.BAD")
@@ -256,7 +267,7 @@ func genC03x(c *Ctx) {
 	// quick tier: one combination in `stride`, chosen by a hash of (index, seed), so successive seeds sweep the product
 	stride := uint64(1)
 	if !c.Thorough() {
-		stride = 9
+		stride = 12
 	}
 	for n := 3; n <= 8; n++ {
 		for _, h := range heights {
@@ -305,7 +316,7 @@ func genC03x(c *Ctx) {
 		}
 	}
 	// --- 2. empty reserves (flat and capstone separately) and opening plies, on random boards
-	m := c.Scale(640, 64000)
+	m := c.Scale(640, 24000)
 	for j := 0; j < m; j++ {
 		base := randomPosition(c.R)
 		r := base.VerifRaw()
